@@ -107,7 +107,7 @@ pub fn run(ctx: &Ctx) -> i32 {
     }
     // 2b. length sweep: a run of k characters of one class followed by one character whose UTF-8
     //     encoding ends in a boundary byte (0x80, 0xBF, ...) - the end-of-data rules see the last bytes
-    let finals: Vec<char> = vec!['\u{80}', 'π', '\u{3000}', '€', 'é', '😀', '\u{7FF}', '\u{FFFF}', 'ÿ', '\u{100}', 'A', '1'];
+    let finals: Vec<&str> = vec!["\u{80}", "π", "\u{3000}", "€", "é", "😀", "\u{7FF}", "\u{FFFF}", "ÿ", "\u{100}", "A", "1", "07", "π07", "é1", "12a"];
     let runs: Vec<&str> = vec!["a", "A", "1", "a ", "aA1*"];
     ctx.par((runs.len() * 131) as u64, |c, w| {
         let r = runs[c as usize / 131];
@@ -115,7 +115,7 @@ pub fn run(ctx: &Ctx) -> i32 {
         w.label(|| format!("length sweep run {:?} x {}", r, k));
         for f in &finals {
             let mut s: String = r.chars().cycle().take(k).collect();
-            s.push(*f);
+            s.push_str(f);
             w.check(s.len() as u64, || sdesc(&s), |st| eval_str(&s, st));
             let m = format!("[)>\u{1E}05\u{1D}{}\u{1E}\u{04}", s);
             w.check(m.len() as u64, || sdesc(&m), |st| eval_str(&m, st));
@@ -267,7 +267,7 @@ pub fn run(ctx: &Ctx) -> i32 {
         "evaluations": ctx.evaluations(),
         "distinct_nontrivial": ctx.counter("nontrivial"),
         "rule": format!("every Unicode scalar value (1,112,064) as a one-character string through encode_str -> data_codewords -> decode_str, and through utf8_to_latin1; all strings over a 12-character class alphabet \
-(ASCII letters/digit, RS, EOT, e-acute, U+0080, euro, emoji, ~, NBSP, DEL) of length <= {} and over 24 characters of length <= {}, each (up to length 3) also inside the macro 05/06 envelope (length <= 3); every scalar value (quick tier: the whole BMP plus, in the astral planes, the first and last 64 scalars of every 4096-block and every scalar whose low six bits are 0, 0x1F or 0x3F; thorough tier: all of them) isolated between two runs of upper-case letters, of lower-case letters and of digits; long strings of seven non-ASCII units with payload lengths 250m-3..250m+3 bytes (m = 1..6), bare and after \"A\" / \"12\"; a run of 249..251 Latin-1 characters (124..126 two-byte characters on the UTF-8 path) followed by an EDIFACT-favouring middle part of every length 0..40 and six suffixes; a length sweep (runs of 0..130 characters of five classes followed by one of 12 final characters, plain and inside the macro 05 envelope); all strings of length 2..3 over the Latin-1 boundary characters; \
+(ASCII letters/digit, RS, EOT, e-acute, U+0080, euro, emoji, ~, NBSP, DEL) of length <= {} and over 24 characters of length <= {}, each (up to length 3) also inside the macro 05/06 envelope (length <= 3); every scalar value (quick tier: the whole BMP plus, in the astral planes, the first and last 64 scalars of every 4096-block and every scalar whose low six bits are 0, 0x1F or 0x3F; thorough tier: all of them) isolated between two runs of upper-case letters, of lower-case letters and of digits; long strings of seven non-ASCII units with payload lengths 250m-3..250m+3 bytes (m = 1..6), bare and after \"A\" / \"12\"; a run of 249..251 Latin-1 characters (124..126 two-byte characters on the UTF-8 path) followed by an EDIFACT-favouring middle part of every length 0..40 and six suffixes; a length sweep (runs of 0..130 characters of five classes followed by one of 16 endings (12 single characters, two digits, two digits after a non-Latin-1 character ...), plain and inside the macro 05 envelope); all strings of length 2..3 over the Latin-1 boundary characters; \
 latin1_to_utf8 on all 256 bytes, 65,536 pairs and every byte at five positions of inputs of 15..64 bytes against ISO 8859-1 by rule, utf8_to_latin1 as its inverse. Oracle: round trip; printable Latin-1 => no ECI and Latin-1 bytes (reference decoder R5); otherwise exactly one UTF-8 designator (241 27) first (after a macro codeword) and UTF-8 payload. \
 All cases distinct; non-trivial = UTF-8/ECI path taken or helper defined.", ctx.tier.pick(5, 6), ctx.tier.pick(3, 4)),
         "exhaustive": true,
